@@ -103,3 +103,139 @@ pub fn replay(v: &serde_json::Value) -> bool {
     let _ = v;
     !solver_bind(false).failures.is_empty()
 }
+
+// ---------------------------------------------------------------------------------------------------------------------
+// C19: fixed parameters are constants, exactly the free parameters are returned, an exactly satisfied start is returned unchanged,
+// well-conditioned consistent linear systems are solved (any number of unknowns, any mix of free and fixed, equations over
+// different subsets of the variables), on both back ends
+
+struct Lin { trees: Vec<Tree>, params: HashMap<Var, Parameter>, free: Vec<(Var, f64)>, fixed: Vec<Var>, desc: String }
+
+/// n variables with integer target values x*_i; a random subset is fixed at its target value; one equation per FREE variable i:
+/// d_i * v_i + sum over a sparse set S_i of other variables of c_ij * v_j - rhs_i, diagonally dominant, rhs_i consistent with x*
+fn linear_system(n: usize, seed: u64, start_at_solution: bool) -> Lin {
+    let mut rng = Rng::new(seed.wrapping_mul(0x9E37).wrapping_add(n as u64 * 131).wrapping_add(0xC19));
+    let vars: Vec<Var> = (0..n).map(|_| Var::new()).collect();
+    let target: Vec<f32> = (0..n).map(|_| (rng.below(9) as f32) - 4.0).collect();
+    let mut is_fixed: Vec<bool> = (0..n).map(|_| rng.below(3) == 0).collect();
+    if is_fixed.iter().all(|f| *f) { is_fixed[rng.below(n)] = false; }
+    let mut params = HashMap::new();
+    for i in 0..n {
+        if is_fixed[i] { params.insert(vars[i], Parameter::Fixed(target[i])); }
+        else { params.insert(vars[i], Parameter::Free(if start_at_solution { target[i] } else { target[i] + 1.0 + (rng.below(5) as f32) * 0.5 })); }
+    }
+    let mut trees = vec![];
+    for i in 0..n {
+        if is_fixed[i] { continue; }
+        // sparse off-diagonal pattern: up to 3 other variables
+        let mut terms: Vec<(usize, f32)> = vec![];
+        let k = if n > 1 { rng.below(4.min(n)) } else { 0 };
+        for _ in 0..k {
+            let j = rng.below(n);
+            if j != i && !terms.iter().any(|t| t.0 == j) { terms.push((j, [1.0f32, -1.0, 0.5, 2.0][rng.below(4)])); }
+        }
+        let dom: f32 = terms.iter().map(|t| t.1.abs()).sum::<f32>() + 2.0 + rng.below(3) as f32;
+        terms.push((i, dom));
+        // random term order (so that the slot of a variable differs between equations)
+        for a in (1..terms.len()).rev() { let b = rng.below(a + 1); terms.swap(a, b); }
+        let rhs: f32 = terms.iter().map(|&(j, c)| c * target[j]).sum();
+        let mut acc: Option<Tree> = None;
+        for &(j, c) in &terms {
+            let t = Tree::from(vars[j]) * c;
+            acc = Some(match acc { None => t, Some(a) => a + t });
+        }
+        trees.push(acc.unwrap() - rhs);
+    }
+    let free = (0..n).filter(|&i| !is_fixed[i]).map(|i| (vars[i], target[i] as f64)).collect();
+    let fixed = (0..n).filter(|&i| is_fixed[i]).map(|i| vars[i]).collect();
+    Lin { trees, params, free, fixed, desc: format!("n={n}, seed={seed}, fixed={:?}", is_fixed.iter().map(|b| *b as u8).collect::<Vec<_>>()) }
+}
+
+fn solve_on(backend: usize, trees: &[Tree], params: &HashMap<Var, Parameter>) -> Result<HashMap<Var, f32>, String> {
+    let mut ctx = Context::new();
+    let res = std::panic::catch_unwind(std::panic::AssertUnwindSafe(|| {
+        if backend == 0 {
+            let eqs: Vec<VmFunction> = trees.iter().map(|t| { let n = ctx.import(t); VmFunction::new(&ctx, &[n]).unwrap() }).collect();
+            solve(&eqs, params).map_err(|e| format!("{e:?}"))
+        } else {
+            let eqs: Vec<JitFunction> = trees.iter().map(|t| { let n = ctx.import(t); JitFunction::new(&ctx, &[n]).unwrap() }).collect();
+            solve(&eqs, params).map_err(|e| format!("{e:?}"))
+        }
+    }));
+    match res { Ok(r) => r, Err(p) => Err(format!("PANIC: {}", p.downcast_ref::<String>().cloned().or_else(|| p.downcast_ref::<&str>().map(|s| s.to_string())).unwrap_or_default())) }
+}
+
+pub fn solver_linear(thorough: bool) -> Report {
+    let mut r = Report::new("solver_linear");
+    let prev = std::panic::take_hook();
+    std::panic::set_hook(Box::new(|_| {}));
+    let max_n = if thorough { 40 } else { 14 };
+    let seeds = if thorough { 6 } else { 3 };
+    for n in 1..=max_n {
+        for seed in 0..seeds {
+            for start_at_solution in [false, true] {
+                let sys = linear_system(n, seed, start_at_solution);
+                let mut sols: Vec<Option<HashMap<Var, f32>>> = vec![];
+                for backend in 0..2 {
+                    r.cases += 1;
+                    let bn = if backend == 0 { "vm" } else { "jit" };
+                    match solve_on(backend, &sys.trees, &sys.params) {
+                        Err(e) => { r.fail(format!("linear:{}:{bn}:err", sys.desc), format!("[{}] solve failed on a diagonally dominant consistent linear system ({}) on {bn}: {e}", if e.starts_with("PANIC") { "solver-panic" } else { "solver-error" }, sys.desc), json!({"contract":"solver_linear"})); sols.push(None); }
+                        Ok(sol) => {
+                            let mut bad: Vec<String> = vec![];
+                            if sol.len() != sys.free.len() { bad.push(format!("returned {} values for {} free parameters", sol.len(), sys.free.len())); }
+                            for v in &sys.fixed { if sol.contains_key(v) { bad.push("a fixed parameter is in the result".into()); } }
+                            for (i, (v, w)) in sys.free.iter().enumerate() {
+                                match sol.get(v) {
+                                    None => bad.push(format!("free parameter #{i} missing")),
+                                    Some(g) if start_at_solution && (*g as f64) != *w => bad.push(format!("start satisfies every equation exactly but free parameter #{i} moved from {w} to {g}")),
+                                    Some(g) if ((*g as f64) - w).abs() > 1e-2 * (1.0 + w.abs()) => bad.push(format!("free parameter #{i}: got {g}, unique solution {w}")),
+                                    _ => {}
+                                }
+                            }
+                            if !bad.is_empty() {
+                                let class = if start_at_solution { "solver-start-moved" } else { "solver-linear" };
+                                r.fail(format!("linear:{}:{bn}:start{}", sys.desc, start_at_solution as u8), format!("[{class}] system ({}) on {bn}: {}", sys.desc, bad.join("; ")), json!({"contract":"solver_linear"}));
+                            }
+                            sols.push(Some(sol));
+                        }
+                    }
+                }
+                if let (Some(a), Some(b)) = (&sols[0], &sols[1]) {
+                    for (v, _) in &sys.free {
+                        if let (Some(x), Some(y)) = (a.get(v), b.get(v)) {
+                            if (x - y).abs() > 1e-2 * (1.0 + x.abs()) {
+                                r.fail(format!("linear:{}:backends", sys.desc), format!("[solver-backend] system ({}): VM gives {x}, JIT gives {y} for the same free parameter", sys.desc), json!({"contract":"solver_linear"}));
+                                break;
+                            }
+                        }
+                    }
+                }
+            }
+        }
+    }
+    // no free parameter at all: the result is the empty map
+    for backend in 0..2 {
+        r.cases += 1;
+        let a = Var::new();
+        let mut params = HashMap::new();
+        params.insert(a, Parameter::Fixed(2.0));
+        let trees = vec![Tree::from(a) - 2.0];
+        match solve_on(backend, &trees, &params) {
+            Ok(sol) if sol.is_empty() => {}
+            Ok(sol) => r.fail(format!("all-fixed:{backend}"), format!("[solver-all-fixed] every parameter is fixed but the result has {} entries", sol.len()), json!({"contract":"solver_linear"})),
+            Err(e) => r.fail(format!("all-fixed:{backend}"), format!("[solver-all-fixed] every parameter is fixed (one equation `a - 2`, a fixed at 2): solve does not return the empty map: {e}"), json!({"contract":"solver_linear"})),
+        }
+    }
+    std::panic::set_hook(prev);
+    r.space = format!("diagonally dominant consistent linear systems with 1..={max_n} variables (integer target values in -4..=4) x {seeds} seeds: a random third of the variables fixed at their target value (never all), one equation per free variable over a sparse random subset of up to 4 variables in random term order, free parameters started off the solution and exactly at it, x {{VM, JIT}}: exactly the free parameters are returned, each within 1e-2 relative of the unique solution, bit-identical to the start when the start satisfies every equation exactly, VM and JIT within 1e-2 of each other; plus the system whose only parameter is fixed (expected: empty result)");
+    r.distinct = r.cases;
+    r.exhaustive = false;
+    r.sample(json!({"n":5,"fixed":[0,1,0,0,1],"equation":"3*v2 + 1*v0 - 0.5*v4 - rhs"}));
+    r
+}
+
+pub fn replay_linear(v: &serde_json::Value) -> bool {
+    let _ = v;
+    !solver_linear(false).failures.is_empty()
+}
